@@ -111,8 +111,11 @@ grows by exactly `appended s ev i` at its END, and then exactly one of
   if something was appended the queue is below the link's regime threshold and below 32;
 * *sent*: the WHOLE queue (old content then the appended item) is put on this link's socket, in queue
   order, byte for byte (`dataWire … = bytesOf (l.queue ++ appended)`), and the queue is empty;
-* *discarded*: the queue is empty, nothing of it went on the wire, and a `LossCause` holds. -/
-theorem C01_event_link (s : Sys F) (ev : Ev) (hnd : (ids s.links).Nodup) :
+* *discarded*: the queue is empty, nothing of it went on the wire, and a `LossCause` holds.
+`hnr`: over events / runs that keep the link set (no `Ev.reload`); a reload keeps the whole record of every retained link
+(`Props/SysReload.lean: reload_frame`) and the theorem applies again from the state after it.  A datagram queued on an uplink that a
+reload removes is discarded with it: `Props/SysReload.lean: C01_reload_accounting`. -/
+theorem C01_event_link (s : Sys F) (ev : Ev) (hnd : (ids s.links).Nodup) (hnr : ev.isReload = false) :
     (step s ev).1.links.length = s.links.length ∧
     ∀ (i : Nat) (l : FLink F), s.links[i]? = some l → ∃ l', (step s ev).1.links[i]? = some l' ∧
       l'.core.connId = l.core.connId ∧
@@ -120,7 +123,7 @@ theorem C01_event_link (s : Sys F) (ev : Ev) (hnd : (ids s.links).Nodup) :
           (appended s ev i = [] ∨ (l'.queue.length < l'.regime.batchSize ∧ l'.queue.length < 32))) ∨
        (l'.queue = [] ∧ dataWire ev (step s ev).2 l.core.connId = bytesOf (l.queue ++ appended s ev i)) ∨
        (l'.queue = [] ∧ dataWire ev (step s ev).2 l.core.connId = [] ∧ LossCause s ev i l l')) := by
-  obtain ⟨h1, h2⟩ := step_link s ev hnd
+  obtain ⟨h1, h2⟩ := step_link s ev hnd hnr
   refine ⟨h1, fun i l hl => ?_⟩
   obtain ⟨l', g1, g2, -, -⟩ := h2 i l hl
   exact ⟨l', g1, g2.1, g2.2⟩
@@ -143,12 +146,16 @@ satisfying `Inv`, for every link: its initial queue followed by its arrival log 
 the departed items followed by the final queue; every departed item carries one flag (`true` = put on
 the wire, `false` = discarded); and the link's wire log is exactly the `true` items, in order, byte
 for byte.  Hence every accepted copy is, by position, in exactly one of: wire log (once), discarded,
-still queued. -/
-theorem C01_accounting (s : Sys F) (h : Inv s) (evs : List Ev) (i : Nat) (hi : i < s.links.length) :
+still queued.
+`hnr`: over events / runs that keep the link set (no `Ev.reload`); a reload keeps the whole record of every retained link
+(`Props/SysReload.lean: reload_frame`) and the theorem applies again from the state after it.  A datagram queued on an uplink that a
+reload removes is discarded with it: `Props/SysReload.lean: C01_reload_accounting`. -/
+theorem C01_accounting (s : Sys F) (h : Inv s) (evs : List Ev) (hnr : NoReload evs) (i : Nat)
+    (hi : i < s.links.length) :
     ∃ dep : List (QItem × Bool),
       queueOf s i ++ arrivals s evs i = dep.map (·.1) ++ queueOf (run s evs).1 i ∧
       wireLog s evs i = bytesOf ((dep.filter (·.2)).map (·.1)) :=
-  run_accounting s h evs i hi
+  run_accounting s h evs hnr i hi
 
 /-- The arrival log of every link is a subsequence of the client datagrams of the run (each client
 event contributes at most one copy per link, unmodified). -/
@@ -163,11 +170,15 @@ SUBSEQUENCE of (the payloads queued initially) followed by (the client datagrams
 arrival order).  So every wire datagram is byte-for-byte a datagram received from the SRT client
 (or queued before the run), the per-link wire order is the arrival order, and no client datagram is
 sent twice on the same link; what is missing was discarded (`C01_lost_only_by_reset_or_failed_send`)
-or routed elsewhere. -/
-theorem C01_intact_in_order (s : Sys F) (h : Inv s) (evs : List Ev) (i : Nat) (hi : i < s.links.length) :
+or routed elsewhere.
+`hnr`: over events / runs that keep the link set (no `Ev.reload`); a reload keeps the whole record of every retained link
+(`Props/SysReload.lean: reload_frame`) and the theorem applies again from the state after it.  A datagram queued on an uplink that a
+reload removes is discarded with it: `Props/SysReload.lean: C01_reload_accounting`. -/
+theorem C01_intact_in_order (s : Sys F) (h : Inv s) (evs : List Ev) (hnr : NoReload evs) (i : Nat)
+    (hi : i < s.links.length) :
     (wireLog s evs i ++ bytesOf (queueOf (run s evs).1 i)).Sublist
       (bytesOf (queueOf s i) ++ bytesOf (clientItems evs)) :=
-  run_sublist s h evs i hi
+  run_sublist s h evs hnr i hi
 
 /-! ## 4. Exactly one unique copy, probes only on gated links -/
 
@@ -284,20 +295,25 @@ from every state with distinct conn ids, for every link:
 while this link was stall-gated and connected) + initial probe counter`.
 The counter is 0 after every `reset_core_state`, so counted from a reset (or from any state with
 counter 0) `100 × probes + probeCounter ≤ routed-while-gated`; applied to a suffix of a run it bounds
-every window: at most `⌊(n + 99) / 100⌋` duplicates for `n` routed data packets. -/
-theorem C01_probe_rate (s : Sys F) (hnd : (ids s.links).Nodup) (evs : List Ev) (i : Nat) (hi : i < s.links.length) :
+every window: at most `⌊(n + 99) / 100⌋` duplicates for `n` routed data packets.
+`hnr`: over events / runs that keep the link set (no `Ev.reload`); a reload keeps the whole record of every retained link
+(`Props/SysReload.lean: reload_frame`) and the theorem applies again from the state after it. -/
+theorem C01_probe_rate (s : Sys F) (hnd : (ids s.links).Nodup) (evs : List Ev) (hnr : NoReload evs) (i : Nat)
+    (hi : i < s.links.length) :
     100 * probeCopies s evs i + probeCounterOf (run s evs).1 i ≤ gatedRouted s evs i + probeCounterOf s i :=
-  run_probe_rate s hnd evs i hi
+  run_probe_rate s hnd evs hnr i hi
 
 /-! ## 6. Hold time -/
 
 /-- **Invariant**: after every event list from a state satisfying `Inv` (distinct conn ids, every
 queue < 32), conn ids are still distinct and every queue holds fewer than 32 datagrams: a datagram
 is never held for more than one batch.  (A regime change by housekeeping can leave an older queue
-above a smaller threshold, never at 32: appends flush at the regime threshold ≤ 32.) -/
-theorem C01_hold (s : Sys F) (h : Inv s) (evs : List Ev) :
+above a smaller threshold, never at 32: appends flush at the regime threshold ≤ 32.)
+`hnr`: over events / runs that keep the link set (no `Ev.reload`); a reload keeps the whole record of every retained link
+(`Props/SysReload.lean: reload_frame`) and the theorem applies again from the state after it. -/
+theorem C01_hold (s : Sys F) (h : Inv s) (evs : List Ev) (hnr : NoReload evs) :
     (ids (run s evs).1.links).Nodup ∧ ∀ l ∈ (run s evs).1.links, l.queue.length < 32 :=
-  ⟨(h.run evs).nodup, (h.run evs).hold⟩
+  ⟨(h.run evs hnr).nodup, (h.run evs hnr).hold⟩
 
 /-- After a client event, a link that received a copy and still holds it is below its CURRENT regime
 threshold (4 / 16 / 32). -/
@@ -305,7 +321,7 @@ theorem C01_hold_below_threshold (s : Sys F) (hnd : (ids s.links).Nodup) (now : 
     (l l' : FLink F) (hl : s.links[i]? = some l) (hl' : (handleSrtPacket s pkt now).1.links[i]? = some l')
     (happ : appended s (.client now pkt) i ≠ []) (hq : l'.queue ≠ []) :
     l'.queue.length < l'.regime.batchSize := by
-  obtain ⟨-, h2⟩ := step_link s (.client now pkt) hnd
+  obtain ⟨-, h2⟩ := step_link s (.client now pkt) hnd rfl
   obtain ⟨l'', g1, g2, -, -⟩ := h2 i l hl
   have : l'' = l' := by
     have h := g1; simp only [step] at h; rw [hl'] at h; exact (Option.some.inj h).symm
@@ -347,13 +363,16 @@ CAUSE in the pre-state — `C01_loss_cause_def`):
 * `hk`: the link — as the tick found it — was timed out at `now` and `should_attempt_reconnect(now)` held, and
   housekeeping started a reconnect of it at `now` (`reset_for_reconnect`, or `mark_for_recovery` when the socket
   re-creation failed).
-`setCfg`, `crit`, `failNext`, `failBind`, `stamp`, `syncTimeout` events never discard anything. -/
+`setCfg`, `crit`, `failNext`, `failBind`, `stamp`, `syncTimeout` events never discard anything.
+`hnr`: over events / runs that keep the link set (no `Ev.reload`); a reload keeps the whole record of every retained link
+(`Props/SysReload.lean: reload_frame`) and the theorem applies again from the state after it.  A datagram queued on an uplink that a
+reload removes is discarded with it: `Props/SysReload.lean: C01_reload_accounting`. -/
 theorem C01_lost_only_by_reset_or_failed_send (s : Sys F) (ev : Ev) (hnd : (ids s.links).Nodup)
-    (i : Nat) (l l' : FLink F) (hl : s.links[i]? = some l) (hl' : (step s ev).1.links[i]? = some l')
+    (hnr : ev.isReload = false) (i : Nat) (l l' : FLink F) (hl : s.links[i]? = some l) (hl' : (step s ev).1.links[i]? = some l')
     (x : QItem) (hx : x ∈ l.queue ++ appended s ev i) (hq : x ∉ l'.queue)
     (hw : x.1 ∉ dataWire ev (step s ev).2 l.core.connId) :
     LossCause s ev i l l' := by
-  obtain ⟨-, h2⟩ := step_link s ev hnd
+  obtain ⟨-, h2⟩ := step_link s ev hnd hnr
   obtain ⟨l'', g1, g2, -, -⟩ := h2 i l hl
   have : l'' = l' := by rw [hl'] at g1; exact (Option.some.inj g1).symm
   subst this
@@ -373,7 +392,9 @@ PRE-state `s`, `l` and the event — the cause — together with the shape of th
 * `hk`: `l.isTimedOut now ∧ l.shouldAttemptReconnect now` on the record the tick started with, and the
   post-state carries the attempt stamp `now`, is not connected and is registering;
 * `setCfg`, `crit`, `failNext`, `failBind` (the two fault INJECTIONS themselves lose nothing: only the later
-  `client` / `flush` / `hk` event that consumes one does), `stamp`, `syncTimeout`: never. -/
+  `client` / `flush` / `hk` event that consumes one does), `stamp`, `syncTimeout`: never.
+The twelfth constructor `reload` is not an event of the index-based walk (`hnr` of `C01_event_link`); what it discards
+— the whole queue of every removed uplink — is `Props/SysReload.lean: C01_reload_accounting`. -/
 theorem C01_loss_cause_def (s : Sys F) (i : Nat) (l l' : FLink F) :
     (∀ now pkt, LossCause s (.client now pkt) i l l' ↔
       ((l.core.connId ∈ s.failNext ∧ l'.core.connected = false ∧ l'.core.phase = .registering) ∧
@@ -600,7 +621,7 @@ example :
       (@step Int fixScalar s3 (.client 5003 exData)).1.failNext.count l.core.connId < s3.failNext.count l.core.connId := by
   intro s3 l l' hl hl' hx hq hw
   exact ((@C01_loss_cause_def Int fixScalar s3 0 l l').1 5003 exData).1
-    (@C01_lost_only_by_reset_or_failed_send Int fixScalar s3 (.client 5003 exData) (by decide +kernel) 0 l l' hl hl'
+    (@C01_lost_only_by_reset_or_failed_send Int fixScalar s3 (.client 5003 exData) (by decide +kernel) rfl 0 l l' hl hl'
       _ hx hq hw) |>.2
 
 example (now : Nat) (pkt : Bytes) (a : Nat) :=
@@ -692,20 +713,23 @@ theorem C01_ghost_counts_def (t : Nat) (g : G F) (b : Bins) :
 the final state of `Sys.run`; there is one set of bins per link; the acceptance log is (what was queued
 initially, then) exactly the non-empty client datagrams of the event list, in order; every link's queue
 mirror erases to its real queue and its wire bin erases to the real wire log of the run (`wireLog`: the
-datagrams the data path put on that link's socket, in order, byte for byte). -/
-theorem C01_ghost_projects (s : Sys F) (h : Inv s) (evs : List Ev) :
+datagrams the data path put on that link's socket, in order, byte for byte).
+`hnr`: over events / runs that keep the link set (no `Ev.reload`); a reload keeps the whole record of every retained link
+(`Props/SysReload.lean: reload_frame`) and the theorem applies again from the state after it.  A datagram queued on an uplink that a
+reload removes is discarded with it: `Props/SysReload.lean: C01_reload_accounting`. -/
+theorem C01_ghost_projects (s : Sys F) (h : Inv s) (evs : List Ev) (hnr : NoReload evs) :
     (runG (ginit s) evs).sys = (run s evs).1 ∧
     (runG (ginit s) evs).bins.length = s.links.length ∧
     (runG (ginit s) evs).accepted.map (·.2) = (ginit s).accepted.map (·.2) ++ evs.filterMap accepts ∧
     ∀ (i : Nat) (b : Bins), (runG (ginit s) evs).bins[i]? = some b →
       b.queued.map (·.item) = queueOf (run s evs).1 i ∧ b.wire.map (·.bytes) = wireLog s evs i := by
-  have hg := (ginit_inv s h).run evs
+  have hg := (ginit_inv s h).run evs hnr
   have hsys : (runG (ginit s) evs).sys = (run s evs).1 := runG_sys _ _
   refine ⟨hsys, ?_, runG_accepted _ _, fun i b hb => ⟨?_, ?_⟩⟩
-  · rw [hg.len, hsys]; exact run_length s h evs
+  · rw [hg.len, hsys]; exact run_length s h evs hnr
   · rw [← hsys]; exact hg.aligned i b hb
   · obtain ⟨b0, hb0⟩ := runG_bins_get _ _ _ _ hb
-    have := runG_wire (ginit s) (ginit_inv s h) evs i b0 b hb0 hb
+    have := runG_wire (ginit s) (ginit_inv s h) evs hnr i b0 b hb0 hb
     rw [(ginit_bins s i b0 hb0).1] at this
     simpa [ginit] using this
 
@@ -723,8 +747,11 @@ event list, in the instrumented run `g = runG (ginit s) evs`:
    that was eligible (connected, registered, not timed out, not stall-gated) at that moment;
 6. at most one duplicate per 100 routed data packets per gated uplink: `100 × (probe copies ever enqueued
    on the link) + final probe counter ≤ (data packets routed elsewhere while the link was stall-gated and
-   connected) + initial probe counter`. -/
-theorem C01_exactly_once_run (s : Sys F) (h : Inv s) (evs : List Ev) :
+   connected) + initial probe counter`.
+`hnr`: over events / runs that keep the link set (no `Ev.reload`); a reload keeps the whole record of every retained link
+(`Props/SysReload.lean: reload_frame`) and the theorem applies again from the state after it.  A datagram queued on an uplink that a
+reload removes is discarded with it: `Props/SysReload.lean: C01_reload_accounting`. -/
+theorem C01_exactly_once_run (s : Sys F) (h : Inv s) (evs : List Ev) (hnr : NoReload evs) :
     (runG (ginit s) evs).accepted.map (·.1) = List.range (runG (ginit s) evs).next ∧
     (∀ tb ∈ (runG (ginit s) evs).accepted, ucount tb.1 (runG (ginit s) evs) = 1) ∧
     (∀ (i : Nat) (b : Bins), (runG (ginit s) evs).bins[i]? = some b →
@@ -737,7 +764,7 @@ theorem C01_exactly_once_run (s : Sys F) (h : Inv s) (evs : List Ev) :
       (x.kind = .unique → x.estab = true → x.elig = true ∧ x.gated = false)) ∧
     (∀ (i : Nat) (b : Bins), (runG (ginit s) evs).bins[i]? = some b →
       100 * b.probes + probeCounterOf (run s evs).1 i ≤ gatedRouted s evs i + probeCounterOf s i) := by
-  have hg := (ginit_inv s h).run evs
+  have hg := (ginit_inv s h).run evs hnr
   refine ⟨hg.acc, ?_, fun i b hb => (hg.ok i b hb).bytes, hg.dropped, fun i b hb => (hg.ok i b hb).sorted,
     fun i b hb x hx => ⟨(hg.ok i b hb).probe x hx, (hg.ok i b hb).unique x hx⟩, ?_⟩
   · intro tb htb
@@ -747,13 +774,13 @@ theorem C01_exactly_once_run (s : Sys F) (h : Inv s) (evs : List Ev) :
     exact List.mem_range.1 this
   · intro i b hb
     obtain ⟨b0, hb0⟩ := runG_bins_get _ _ _ _ hb
-    have hp := runG_probes (ginit s) (ginit_inv s h) evs i b0 b hb0 hb
+    have hp := runG_probes (ginit s) (ginit_inv s h) evs hnr i b0 b hb0 hb
     rw [(ginit_bins s i b0 hb0).2.2, Nat.zero_add] at hp
     rw [hp]
     have hi : i < s.links.length := by
       have := (List.getElem?_eq_some_iff.1 hb0).1
       rw [(ginit_inv s h).len] at this; exact this
-    exact C01_probe_rate s h.nodup evs i hi
+    exact C01_probe_rate s h.nodup evs hnr i hi
 
 /-- **Nothing is filed under `lost` without a cause.**  Every entry `(k, x)` of a link's lost bin at the
 end of a run names an event of the run (`evs[k]`), and that event, applied to the state the run had
@@ -762,15 +789,18 @@ reached after its first `k` events, discarded the link's queue for one of the fo
 periodic send — in both cases the injected failure for the link's conn id is CONSUMED by that very event —,
 REG3 / REG_ERR on this link's conn id, housekeeping reconnect of a link that was timed out and due for an attempt
 when the tick started).  The eleven-constructor alphabet includes `failBind`, `stamp`, `syncTimeout`: none of
-them ever files anything under `lost`. -/
-theorem C01_lost_has_cause_run (s : Sys F) (h : Inv s) (evs : List Ev) (i : Nat) (b : Bins)
+them ever files anything under `lost`.
+`hnr`: over events / runs that keep the link set (no `Ev.reload`); a reload keeps the whole record of every retained link
+(`Props/SysReload.lean: reload_frame`) and the theorem applies again from the state after it.  A datagram queued on an uplink that a
+reload removes is discarded with it: `Props/SysReload.lean: C01_reload_accounting`. -/
+theorem C01_lost_has_cause_run (s : Sys F) (h : Inv s) (evs : List Ev) (hnr : NoReload evs) (i : Nat) (b : Bins)
     (hb : (runG (ginit s) evs).bins[i]? = some b) :
     ∀ kx ∈ b.lost, ∃ ev l l', evs[kx.1]? = some ev ∧
       (run s (evs.take kx.1)).1.links[i]? = some l ∧
       (step (run s (evs.take kx.1)).1 ev).1.links[i]? = some l' ∧
       LossCause (run s (evs.take kx.1)).1 ev i l l' := by
   obtain ⟨b0, hb0⟩ := runG_bins_get _ _ _ _ hb
-  obtain ⟨extra, e1, e2⟩ := runG_lost (ginit s) (ginit_inv s h) evs i b0 b hb0 hb
+  obtain ⟨extra, e1, e2⟩ := runG_lost (ginit s) (ginit_inv s h) evs hnr i b0 b hb0 hb
   rw [(ginit_bins s i b0 hb0).2.1, List.nil_append] at e1
   intro kx hkx
   rw [e1] at hkx
